@@ -51,6 +51,21 @@ def wellformed_moves(size):
     return out
 
 
+def offboard_moves(size):
+    """every slide with total <= size that leaves the board (one drop more than there are squares,
+    or several) - refused by the rules whatever the stacks look like"""
+    tak = impl()
+    MT = tak.MoveType
+    out = []
+    for x in range(size):
+        for y in range(size):
+            for t, room in ((MT.SLIDE_LEFT, x), (MT.SLIDE_RIGHT, size - 1 - x), (MT.SLIDE_DOWN, y), (MT.SLIDE_UP, size - 1 - y)):
+                for s in slides(size):
+                    if len(s) > room:
+                        out.append(tak.Move(x, y, t, s))
+    return out
+
+
 def illformed_moves(rng, size, n, pos=None):
     """a stream of moves outside (and at the edge of) the well-formed universe:
     off-board squares, None / empty / zero / negative / too long / too large drop tuples,
